@@ -181,6 +181,10 @@ Fixpoint split_last_dot (s : bstring) : option (bstring * bstring) :=
       end
   end.
 
+(* a leading dot is ignored: the namespace is always relative to the root *)
+Definition drop_lead_dot (n : bstring) : bstring :=
+  match n with c :: n' => if c =? 46 then n' else n | [] => n end.
+
 Definition nonempty (s : bstring) : option bstring := match s with [] => None | _ => Some s end.
 
 Definition parse_include (r : rctx) (toks : list bstring)
@@ -193,7 +197,7 @@ Definition parse_include (r : rctx) (toks : list bstring)
         let '(ns, px) :=
           if pvers_ge r 10 then
             match split_last_dot pxin with
-            | Some (n, p) => (nonempty (match n with 46 :: n' => n' | _ => n end), p)
+            | Some (n, p) => (nonempty (drop_lead_dot n), p)
             | None => (None, pxin)
             end
           else (None, pxin) in
